@@ -163,7 +163,8 @@ Lemma recv_frame_own y fr ch y' ch' evs :
   let rb0 := match lookup pid (se_objs (sess y po)) with Some st => st_rb st | None => rb_init 0 end in
   let '(rb', tbc, _) := rb_write rb0 (mkF (w_seq fr) (negb (w_cl fr =? 0)) (w_pay fr)) in
   exists st', lookup pid (se_objs (sess y' po)) = Some st' /\ st_closed st' = tbc /\
-              st_rb st' = (if tbc then rb_close rb' else rb').
+              st_rb st' = (if tbc then rb_close rb' else rb') /\
+              (tbc = false -> evs = [] /\ sy_conns y' = sy_conns y).
 Proof.
   unfold recv_frame. intros H Hh Hv Hwf Hci Hcl Hsid Hoa.
   replace (w_cl fr =? 2) with false in H by lia.
@@ -181,7 +182,8 @@ Proof.
                end = r ->
      let '(rb', tbc, _) := rb_write (st_rb st) (mkF (w_seq fr) (negb (w_cl fr =? 0)) (w_pay fr)) in
      exists st', lookup pid (se_objs (sess (fst (fst r)) po)) = Some st' /\ st_closed st' = tbc /\
-                 st_rb st' = (if tbc then rb_close rb' else rb')).
+                 st_rb st' = (if tbc then rb_close rb' else rb') /\
+                 (tbc = false -> snd r = [] /\ sy_conns (fst (fst r)) = sy_conns y0)).
   { intros y0 st Hh0 El Eop r Hr. rewrite El in Hr.
     destruct (rb_write (st_rb st) _) as [[rb' tbc] er]. cbv zeta in Hr.
     set (y1 := set_sess y0 po _) in Hr.
@@ -196,19 +198,20 @@ Proof.
       set (se' := upd_count _ _) in Ecs.
       assert (Elx : forall yy, se_objs (sess yy po) = se_objs (sess y1' po) -> lookup pid (se_objs (sess yy po)) = Some st1).
       { intros yy ->. unfold y1'. rewrite sess_set_same. cbn [se_objs upd_objs]. apply lookup_update_eq. }
-      exists st1. split; [|split; reflexivity].
+      exists st1. split; [|split; [reflexivity|split; [reflexivity|discriminate]]].
       destruct (decr32 (se_count (sess y1' po)) =? 0).
       + destruct (Healthy_sess k y1 po Hh1) as (_ & _ & K3 & _).
         assert (Hsp : se_singleplex se' = false).
         { unfold se'. cbn. unfold y1'. rewrite sess_set_same. exact K3. }
         rewrite Hsp in Ecs. injection Ecs as <- _ _ _. apply Elx. rewrite !sess_set_same. reflexivity.
       + injection Ecs as <- _ _ _. apply Elx. rewrite !sess_set_same. reflexivity.
-    - subst r. cbn [fst]. exists (st_set_rb st rb'). split; [exact El1|split; [exact Eop|reflexivity]]. }
+    - subst r. cbn [fst snd]. exists (st_set_rb st rb'). split; [exact El1|split; [exact Eop|split; [reflexivity|]]].
+      intros _. split; [reflexivity|]. unfold y1. apply conns_set_sess. }
   destruct (Hci po H1) as (_ & _ & T2 & T3).
   destruct (WF_sess y po Hwf) as (Hobj & _).
   destruct (lookup pid (se_tab (sess y po))) as [[|]|] eqn:Et.
   - destruct (T2 pid Et) as (st & El & Eop). cbn zeta. rewrite El.
-    exact (Hdel y st Hh El Eop _ H).
+    pose proof (Hdel y st Hh El Eop _ H) as Hd. cbn [fst snd] in Hd. exact Hd.
   - (* a closed-and-forgotten stream: impossible while the object is open or absent *)
     exfalso. unfold oa in Hoa.
     destruct (lookup pid (se_objs (sess y po))) as [st|] eqn:El.
@@ -224,7 +227,11 @@ Proof.
       apply sess_healthy_objs; [repeat split; try assumption; apply H4|]. apply wcl_update; [exact H5|cbn; lia]. }
     assert (El' : lookup pid (se_objs (sess (set_sess y po se') po)) = Some new_stream).
     { rewrite sess_set_same. unfold se'. cbn [se_objs upd_count upd_acceptq upd_tab upd_objs]. apply lookup_update_eq. }
-    exact (Hdel _ new_stream Hh' El' eq_refl _ H).
+    pose proof (Hdel _ new_stream Hh' El' eq_refl _ H) as Hd. cbn [fst snd] in Hd.
+    change (st_rb new_stream) with (rb_init 0) in Hd.
+    destruct (rb_write (rb_init 0) _) as [[rb' tbc] er]. destruct Hd as (st' & A1 & A2 & A3 & A4).
+    exists st'. split; [exact A1|split; [exact A2|split; [exact A3|]]].
+    intros Ht. destruct (A4 Ht) as [B1 B2]. split; [exact B1|]. rewrite B2. apply conns_set_sess.
 Qed.
 
 (* ---- application calls ---- *)
